@@ -206,7 +206,7 @@ def _api(call, ds):
             got = [float(x) for x in np.asarray(v2[1]).ravel()]
             for kk, x in enumerate(o):
                 exp_v = -9999.0 if x < 0 else exp_a[kk] * per
-                if abs(got[kk] - exp_v) > 1e-5 * max(1.0, abs(exp_v)):
+                if not (abs(got[kk] - exp_v) <= 1e-5 * max(1.0, abs(exp_v))):
                     bad.append(f"ucat_area(unit={unit}) outlet {kk}: {got[kk]} expected {exp_v}")
                     break
     hand = np.array([rng.randint(0, 3) for _ in range(n)], dtype=np.float32).reshape(nr, nc)
@@ -227,7 +227,7 @@ def _api(call, ds):
                 got = [float(x) for x in vol[di].ravel()]
                 for kk, x in enumerate(o):
                     exp_v = -9999.0 if x < 0 else sum(max(d - hf[i], 0.0) for i in range(n) if exp_m[i] == kk + 1)
-                    if abs(got[kk] - exp_v) > 1e-4 * max(1.0, abs(exp_v)):
+                    if not (abs(got[kk] - exp_v) <= 1e-4 * max(1.0, abs(exp_v))):
                         bad.append(f"ucat_volume depth {d} outlet {kk}: {got[kk]} expected {exp_v}")
                         break
     for name in ("subgrid_rivlen", "subgrid_rivavg", "subgrid_rivmed"):
